@@ -68,6 +68,8 @@ structure RunEffect (t t' : T) : Prop where
   demes : List.Forall₂ DemeStep t.demes t'.demes
   gscSeenMono : t.gscSeen = true → t'.gscSeen = true
   refusedMono : t.refused = true → t'.refused = true
+  log : ∃ invs : List Inv, t'.log = t.log ++ invs ∧
+    ∀ i ∈ invs, ∃ lc, t.cfg.levels[i.level]? = some lc ∧ inBox lc.box i.x = true
 
 theorem finishGen_demes {t1 t' : T} {id : Id} {lc : LevelCfg} {q : List Id} {done : Nat}
     {pending : List Gen} {gen : Gen} {g : GenEnv} {lscEnv : Option Bool}
@@ -165,8 +167,10 @@ theorem stepGen_effect {t t' : T} {id : Id} {g : GenEnv} {l : Option Bool}
       split at h
       · simp at h
       · have e := evalReqs_effect hev
-        obtain ⟨f, hf, hd, hc, hm, hl, _, hr, _, hg⟩ := finishGen_demes h
-        refine ⟨hc.trans e.cfg, hm.trans e.metaepoch, hl.trans e.levels, ?_, ?_, ?_⟩
+        obtain ⟨f, hf, hd, hc, hm, hl, hlog, hr, _, hg⟩ := finishGen_demes h
+        obtain ⟨invs, hi1, _, hi3, _⟩ := e.log
+        refine ⟨hc.trans e.cfg, hm.trans e.metaepoch, hl.trans e.levels, ?_, ?_, ?_,
+          ⟨invs, by rw [hlog, hi1], fun i hi => by obtain ⟨a, _, lc, h1, h2⟩ := hi3 i hi; exact ⟨lc, a ▸ h1, h2⟩⟩⟩
         · rw [hd, e.demes, updFirst_comp id f (bump _) t.demes (fun _ => rfl)]
           exact grow_forall2 (hf.comp (grow_bump _)) id t.demes d hfind hact
         · intro hs; exact hg (by rw [e.gscSeen]; exact hs)
@@ -199,8 +203,10 @@ theorem stepLocal_effect {t t' : T} {id : Id} {reqs : List Req} {its : List Ind}
                   · simp only [Except.ok.injEq] at h
                     subst h
                     have e := evalReqs_effect hev
+                    obtain ⟨invs, hi1, _, hi3, _⟩ := e.log
                     refine ⟨e.cfg, e.metaepoch, e.levels, ?_, fun hs => by simpa [T.update, e.gscSeen] using hs,
-                      fun hs => by simpa [T.update] using e.refusedMono hs⟩
+                      fun hs => by simpa [T.update] using e.refusedMono hs,
+                      ⟨invs, by simpa [T.update] using hi1, fun i hi => by obtain ⟨a, _, lc, h1, h2⟩ := hi3 i hi; exact ⟨lc, a ▸ h1, h2⟩⟩⟩
                     simp only [T.update]
                     rw [e.demes, updFirst_comp id _ (bump _) t.demes (fun _ => rfl)]
                     exact grow_forall2 ((grow_local _ _).comp (grow_bump _)) id t.demes d hfind (by simpa using ha)
@@ -209,16 +215,17 @@ theorem stepLocal_effect {t t' : T} {id : Id} {reqs : List Req} {its : List Ind}
 theorem stepLoop_effect {t t' : T} {ge : Option Bool} (h : stepLoop t ge = .ok t') :
     t'.cfg = t.cfg ∧ t'.demes = t.demes ∧ t'.levels = t.levels ∧ t'.log = t.log ∧ t'.refused = t.refused ∧
     t'.stacks = t.stacks ∧ (t.gscSeen = true → t'.gscSeen = true) ∧
-    ((t'.metaepoch = t.metaepoch ∧ t'.pc = .done ∧ t'.gscSeen = true) ∨
+    ((t'.metaepoch = t.metaepoch ∧ t'.pc = .done ∧ t'.gscSeen = true ∧ gscEval t ge t.cfg.gsc = some true) ∨
      (t'.metaepoch = t.metaepoch + 1 ∧ t.gscSeen = false ∧ t'.gscSeen = false ∧
         gscEval t ge t.cfg.gsc = some false)) := by
   unfold stepLoop at h
   split at h
   · split at h
     · simp at h
-    · simp only [Except.ok.injEq] at h
+    · rename_i hg
+      simp only [Except.ok.injEq] at h
       subst h
-      exact ⟨rfl, rfl, rfl, rfl, rfl, rfl, fun _ => rfl, Or.inl ⟨rfl, rfl, rfl⟩⟩
+      exact ⟨rfl, rfl, rfl, rfl, rfl, rfl, fun _ => rfl, Or.inl ⟨rfl, rfl, rfl, hg⟩⟩
     · rename_i hg
       split at h
       · simp at h
@@ -228,5 +235,260 @@ theorem stepLoop_effect {t t' : T} {ge : Option Bool} (h : stepLoop t ge = .ok t
         have hs' : t.gscSeen = false := by simpa using hs
         exact ⟨rfl, rfl, rfl, rfl, rfl, rfl, fun hx => by simp [hs'] at hx, Or.inr ⟨rfl, hs', hs', hg⟩⟩
   · simp at h
+
+end Tree
+
+namespace Tree
+
+/-- invariant: a deme's level is the length of its id path -/
+def LvlId (t : T) : Prop := ∀ d ∈ t.demes, d.level = d.id.length
+
+theorem forall2_mem_right {R : Deme → Deme → Prop} {as bs : List Deme} (h : List.Forall₂ R as bs) :
+    ∀ b ∈ bs, ∃ a ∈ as, R a b := by
+  induction h with
+  | nil => intro b hb; simp at hb
+  | cons hab _ ih =>
+    intro b hb
+    rcases List.mem_cons.mp hb with rfl | hb
+    · exact ⟨_, by simp, hab⟩
+    · obtain ⟨a, ha, hr⟩ := ih b hb
+      exact ⟨a, List.mem_cons_of_mem _ ha, hr⟩
+
+theorem forall2_mem_left {R : Deme → Deme → Prop} {as bs : List Deme} (h : List.Forall₂ R as bs) :
+    ∀ a ∈ as, ∃ b ∈ bs, R a b := by
+  induction h with
+  | nil => intro b hb; simp at hb
+  | cons hab _ ih =>
+    intro a ha
+    rcases List.mem_cons.mp ha with rfl | ha
+    · exact ⟨_, by simp, hab⟩
+    · obtain ⟨b, hb, hr⟩ := ih a ha
+      exact ⟨b, List.mem_cons_of_mem _ hb, hr⟩
+
+theorem find_some_mem {ds : List Deme} {id : Id} {d : Deme} (h : ds.find? (·.id == id) = some d) :
+    d ∈ ds ∧ d.id = id := by
+  have := List.find?_some h
+  exact ⟨List.mem_of_find?_eq_some h, by simpa using this⟩
+
+theorem forall2_length {α β : Type} {R : α → β → Prop} {l1 : List α} {l2 : List β}
+    (h : List.Forall₂ R l1 l2) : l1.length = l2.length := by
+  induction h with
+  | nil => rfl
+  | cons _ _ ih => simp [ih]
+
+theorem forall2_imp {α β : Type} {R S : α → β → Prop} {l1 : List α} {l2 : List β}
+    (h : ∀ a b, R a b → S a b) (hr : List.Forall₂ R l1 l2) : List.Forall₂ S l1 l2 := by
+  induction hr with
+  | nil => exact .nil
+  | cons hab _ ih => exact .cons (h _ _ hab) ih
+
+/-- what a sprouting batch does -/
+structure SproutEffect (t t' : T) (flat : List (Id × Ind)) : Prop where
+  cfg : t'.cfg = t.cfg
+  metaepoch : t'.metaepoch = t.metaepoch
+  pc : t'.pc = t.pc
+  gscSeen : t'.gscSeen = t.gscSeen
+  refusedMono : t.refused = true → t'.refused = true
+  lvlId : LvlId t → LvlId t'
+  log : ∃ invs : List Inv, t'.log = t.log ++ invs ∧
+    ∀ i ∈ invs, ∃ lc, t.cfg.levels[i.level]? = some lc ∧ inBox lc.box i.x = true
+  demes : ∃ old nd, t'.demes = old ++ nd ∧ List.Forall₂ SameBC t.demes old ∧
+    List.Forall₂ (fun (p : Id × Ind) (d : Deme) =>
+      d.active = true ∧ d.hib = false ∧ d.startedAt = t.metaepoch ∧ d.seed = some p.2 ∧
+      d.parent = some p.1 ∧ (LvlId t → d.level = p.1.length + 1)) flat nd
+
+theorem createDeme_lvlId {t t' : T} {p : Deme} {seed : Option Ind} {env : NewEnv}
+    (h : createDeme t (some p) seed env = .ok t') (hp : p.level = p.id.length) (hl : LvlId t) : LvlId t' := by
+  obtain ⟨old, d, hd, hf, hlev, hid, _⟩ := (createDeme_effect h).demes
+  intro x hx
+  rw [hd] at hx
+  rcases List.mem_append.mp hx with hx | hx
+  · obtain ⟨a, ha, hr⟩ := forall2_mem_right hf x hx
+    obtain ⟨cs, rfl⟩ := hr
+    exact hl a ha
+  · simp only [List.mem_singleton] at hx
+    subst hx
+    simp only [] at hlev hid
+    rw [hlev, hid, nextChildId, hp]
+    simp
+
+theorem doSprout_effect {t t' : T} {flat : List (Id × Ind)} {news : List NewEnv}
+    (h : doSprout t flat news = .ok t') : SproutEffect t t' flat := by
+  induction flat generalizing t news with
+  | nil =>
+    cases news with
+    | nil =>
+      simp only [doSprout, Except.ok.injEq] at h
+      subst h
+      exact ⟨rfl, rfl, rfl, rfl, fun h => h, fun h => h, ⟨[], by simp, by simp⟩, t.demes, [], by simp, forall2_sameBC_refl _, .nil⟩
+    | cons e es => simp [doSprout] at h
+  | cons ps rest ih =>
+    obtain ⟨pid, s⟩ := ps
+    cases news with
+    | nil => simp [doSprout] at h
+    | cons e es =>
+      simp only [doSprout] at h
+      split at h
+      · simp at h
+      · rename_i p' hfind
+        split at h
+        · simp at h
+        · rename_i t1 hc
+          have ce := createDeme_effect hc
+          have ie := ih h
+          obtain ⟨old1, d1, hd1, hf1, hlev1, _, hact1, hhib1, hst1, hseed1, hpar1, _, invs1, hlog1, _, hbox1, _⟩ := ce.demes
+          obtain ⟨invs2, hlog2, hbox2⟩ := ie.log
+          obtain ⟨old2, nd2, hd2, hf2, hnew2⟩ := ie.demes
+          have hpm := find_some_mem (show t.demes.find? (·.id == pid) = some p' from hfind)
+          refine ⟨ie.cfg.trans ce.cfg, ie.metaepoch.trans ce.metaepoch, ie.pc.trans ce.pc,
+            ie.gscSeen.trans ce.gscSeen, fun hr => ie.refusedMono (ce.refusedMono hr), ?_, ?_, ?_⟩
+          · intro hl
+            exact ie.lvlId (createDeme_lvlId hc (hl p' hpm.1) hl)
+          · refine ⟨invs1 ++ invs2, by rw [hlog2, hlog1, List.append_assoc], ?_⟩
+            intro i hi
+            rcases List.mem_append.mp hi with hi | hi
+            · obtain ⟨a, lc, h1, h2⟩ := hbox1 i hi
+              exact ⟨lc, a ▸ h1, h2⟩
+            · obtain ⟨lc, h1, h2⟩ := hbox2 i hi
+              exact ⟨lc, by rw [← ce.cfg]; exact h1, h2⟩
+          · rw [hd1] at hf2
+            obtain ⟨c1, c2, hc12, h1, h2⟩ := forall2_sameBC_append_left hf2
+            cases h2 with
+            | cons hdd hnil =>
+              cases hnil
+              obtain ⟨cs, rfl⟩ := hdd
+              refine ⟨c1, { d1 with children := cs } :: nd2, by rw [hd2, hc12]; simp, forall2_sameBC_trans hf1 h1, .cons ?_ ?_⟩
+              · refine ⟨hact1, hhib1, hst1, hseed1, by simpa [hpm.2] using hpar1, fun hl => ?_⟩
+                simp only [] at hlev1
+                rw [hlev1, hl p' hpm.1, hpm.2]
+              · -- the remaining new demes: facts are stated relative to `t1`, transfer to `t`
+                refine forall2_imp ?_ hnew2
+                intro p d hpd
+                obtain ⟨a1, a2, a3, a4, a5, a6⟩ := hpd
+                exact ⟨a1, a2, a3.trans ce.metaepoch, a4, a5,
+                  fun hl => a6 (createDeme_lvlId hc (hl p' hpm.1) hl)⟩
+
+end Tree
+
+namespace Tree
+
+theorem updateHibernation_forall2 (t : T) (took : List Id) :
+    List.Forall₂ (fun d d' => ∃ h, d' = { d with hib := h }) t.demes (updateHibernation t took).demes := by
+  unfold updateHibernation
+  split
+  · generalize t.demes = ds
+    induction ds with
+    | nil => exact .nil
+    | cons d ds ih => exact .cons ⟨d.hib, rfl⟩ ih
+  · simp only
+    generalize t.demes = ds
+    induction ds with
+    | nil => exact .nil
+    | cons d ds ih =>
+      simp only [List.map_cons]
+      refine .cons ?_ ih
+      split
+      · exact ⟨_, rfl⟩
+      · exact ⟨d.hib, rfl⟩
+
+theorem updateHibernation_frame (t : T) (took : List Id) :
+    (updateHibernation t took).cfg = t.cfg ∧ (updateHibernation t took).metaepoch = t.metaepoch ∧
+    (updateHibernation t took).log = t.log ∧ (updateHibernation t took).refused = t.refused ∧
+    (updateHibernation t took).gscSeen = t.gscSeen ∧ (updateHibernation t took).levels = t.levels := by
+  unfold updateHibernation; split <;> simp
+
+/-- the sprouting round: either nothing but the program counter changes (the stop condition
+holds), or demes are created for the seeds the mechanism returned -/
+theorem stepRound_effect {t t' : T} {ge : Option Bool} {renv : Sprout.Env} {news : List NewEnv}
+    (h : stepRound t ge renv news = .ok t') :
+    t'.cfg = t.cfg ∧ t'.metaepoch = t.metaepoch ∧ t.pc = .post ∧ t'.pc = .head ∧
+    (t.gscSeen = true → t'.gscSeen = true) ∧ (t.refused = true → t'.refused = true) ∧
+    ((t'.demes = t.demes ∧ t'.gscSeen = true ∧ t'.log = t.log) ∨
+     (t.gscSeen = false ∧ t'.gscSeen = false ∧ gscEval t ge t.cfg.gsc = some false ∧
+      ∃ seeds t1, Sprout.getSeeds (view t) renv t.cfg.mech = some seeds ∧
+        SproutEffect t t1 (seeds.flatMap fun c => c.inds.map fun i => (c.deme, i)) ∧
+        t' = { updateHibernation t1 (seeds.map (·.deme)) with pc := .head })) := by
+  unfold stepRound at h
+  split at h
+  · rename_i hpc
+    split at h
+    · simp at h
+    · split at h
+      · simp only [Except.ok.injEq] at h
+        subst h
+        exact ⟨rfl, rfl, hpc, rfl, fun _ => rfl, fun hr => hr, Or.inl ⟨rfl, rfl, rfl⟩⟩
+      · simp at h
+    · rename_i hg
+      split at h
+      · simp at h
+      · rename_i hs
+        have hs' : t.gscSeen = false := by simpa using hs
+        split at h
+        · simp at h
+        · rename_i seeds hseeds
+          simp only [] at h
+          split at h
+          · simp at h
+          · rename_i t1 hds
+            simp only [Except.ok.injEq] at h
+            subst h
+            have se := doSprout_effect hds
+            obtain ⟨f1, f2, f3, f4, f5, f6⟩ := updateHibernation_frame t1 (seeds.map (·.deme))
+            refine ⟨by simp [f1, se.cfg], by simp [f2, se.metaepoch], hpc, rfl, fun hx => by simp [hs'] at hx,
+              fun hr => by simpa [f4] using se.refusedMono hr, Or.inr ⟨hs', ?_, hg, seeds, t1, hseeds, se, rfl⟩⟩
+            simp [f5, se.gscSeen, hs']
+  · simp at h
+
+theorem sameBH_demeStep {d d' : Deme} (h : ∃ b, d' = { d with hib := b }) : DemeStep d d' := by
+  obtain ⟨b, rfl⟩ := h
+  exact ⟨rfl, rfl, rfl, rfl, rfl, fun h => h, fun _ => ⟨rfl, rfl⟩, ⟨[], by simp⟩, Nat.le_refl _⟩
+
+theorem forall2_append {R : Deme → Deme → Prop} {a b c d : List Deme} (h1 : List.Forall₂ R a b)
+    (h2 : List.Forall₂ R c d) : List.Forall₂ R (a ++ c) (b ++ d) := by
+  induction h1 with
+  | nil => simpa using h2
+  | cons hab _ ih => exact .cons hab ih
+
+/-- **Every step extends the deme list**: old demes change only as `DemeStep` allows, new
+ones are appended. -/
+theorem step_ext {t t' : T} {ev : Ev} (h : step t ev = .ok t') : Ext t.demes t'.demes := by
+  cases ev with
+  | loop ge =>
+    obtain ⟨_, hd, _⟩ := stepLoop_effect h
+    rw [hd]; exact Ext.refl _
+  | gen id g l => exact ⟨t'.demes, [], by simp, (stepGen_effect h).demes⟩
+  | localRun id reqs its nfev => exact ⟨t'.demes, [], by simp, (stepLocal_effect h).demes⟩
+  | round ge renv news =>
+    obtain ⟨_, _, _, _, _, _, hcase⟩ := stepRound_effect h
+    rcases hcase with ⟨hd, _, _⟩ | ⟨_, _, _, seeds, t1, _, se, rfl⟩
+    · rw [hd]; exact Ext.refl _
+    · obtain ⟨old, nd, hd, hf, _⟩ := se.demes
+      have hu := updateHibernation_forall2 t1 (seeds.map (·.deme))
+      rw [hd] at hu
+      -- split the hibernation-updated list along old ++ nd
+      have : ∃ o2 n2, (updateHibernation t1 (seeds.map (·.deme))).demes = o2 ++ n2 ∧
+          List.Forall₂ (fun d d' => ∃ h, d' = { d with hib := h }) old o2 := by
+        generalize (updateHibernation t1 (seeds.map (·.deme))).demes = res at hu
+        clear hd hf
+        induction old generalizing res with
+        | nil => exact ⟨[], res, by simp, .nil⟩
+        | cons a as ih =>
+          cases hu with
+          | cons hab htl =>
+            obtain ⟨o2, n2, rfl, hf2⟩ := ih _ htl
+            exact ⟨_ :: o2, n2, by simp, .cons hab hf2⟩
+      obtain ⟨o2, n2, ho, hf2⟩ := this
+      refine ⟨o2, n2, by simpa using ho, forall2_trans (forall2_sameBC_demeStep hf) ?_⟩
+      exact forall2_imp (fun a b hab => sameBH_demeStep hab) hf2
+
+theorem exec_ext {t t' : T} {evs : List Ev} (h : exec t evs = .ok t') : Ext t.demes t'.demes := by
+  induction evs generalizing t with
+  | nil => simp only [exec, Except.ok.injEq] at h; subst h; exact Ext.refl _
+  | cons e es ih =>
+    simp only [exec, bind, Except.bind] at h
+    split at h
+    · simp at h
+    · rename_i t1 h1
+      exact (step_ext h1).trans (ih h)
 
 end Tree
